@@ -88,9 +88,10 @@ theorem IdHistX.present {s : Sys F} {evs : List Ev} {c : Nat} {h : List KOp} (hh
   | other _ _ _ hl hc _ _ => exact ⟨_, List.mem_of_getElem? hl, hc⟩
   | reload hl hc _ _ => exact ⟨_, hl, hc⟩
 
-/-- The exact history is a shell-visible history: the blocks of `client` / `flush` are allowed blocks — given that
-they are (hypotheses `hc`, `hf`: `Props/C02.lean` discharges them from `C02_shell_event_kinds`' converse; kept as
-hypotheses here so that nothing depends on the shape of the blocks). -/
+/-- The exact history is a shell-visible history, GIVEN that the exact blocks of `client` / `flush` events are allowed
+blocks (hypotheses `hc`, `hf`, left to the caller: `clientBlock` consists of `send`s and `reset`s, `flushBlock` of
+`send`s; kept as hypotheses so that nothing here depends on the shape of the blocks).  Not used by the theorems of
+`Props/C02.lean`, which prove the `IdHist` and the `IdHistX` form separately. -/
 theorem IdHistX.toIdHist {s : Sys F} {evs : List Ev} {c : Nat} {h : List KOp} (hh : IdHistX s evs c h)
     (hc : ∀ (s : Sys F) now pkt j, ∀ k ∈ clientBlock s now pkt j, kopOk (evOps s (.client now pkt) j) k)
     (hf : ∀ (s : Sys F) now j, ∀ k ∈ flushBlock s j, kopOk (evOps s (.flush now) j) k) : IdHist s evs c h := by
